@@ -196,10 +196,11 @@ def paths_must_pass(fn, start, through, ends, removed_edges=()):
 
 
 
-def reach_with_bool_phis(fn, removed_edges, rounds=8):
+def reach_with_bool_phis(fn, removed_edges, rounds=8, evidence_calls=()):
     """blocks reachable from the entry without `removed_edges`, to a fixpoint over `matches!`-style booleans: a switch
     on a bool local whose every definition is a constant loses its true edge once all its `true` assignments are
-    unreachable (and its false edge once all `false` assignments are).  Returns (reachable, removed)."""
+    unreachable (and its false edge once all `false` assignments are).  Definitions that copy the result of a call in
+    `evidence_calls` (block numbers) are true only under that evidence.  Returns (reachable, removed)."""
     from .facts import op_place, const_int
     from . import flow
     removed = set(removed_edges)
@@ -219,12 +220,36 @@ def reach_with_bool_phis(fn, removed_edges, rounds=8):
                     neg = True
             if p is None or "p" in p:
                 continue
+            # a plain copy of the boolean (`_19 = _5; switch _19`)
+            for _hop in range(4):
+                ds = flow.whole_defs(fn, p["l"])
+                if len(ds) == 1 and ds[0].kind == "stmt" and ds[0].rv["k"] == "use":
+                    q = op_place(ds[0].rv["op"])
+                    if q is not None and "p" not in q and len(flow.whole_defs(fn, q["l"])) > 1:
+                        p = q
+                        continue
+                break
             defs = flow.whole_defs(fn, p["l"])
-            if not defs or not all(d.kind == "stmt" and d.rv["k"] == "use" and const_int(d.rv["op"]) in (0, 1) for d in defs):
+            if not defs or not all((d.kind == "stmt" and d.rv["k"] == "use") or d.kind == "call" for d in defs):
                 continue
+            consts = [d for d in defs if d.kind == "stmt" and const_int(d.rv["op"]) in (0, 1)]
+            computed = [d for d in defs if d not in consts]
+            # `let ok = a && b && test(x)`: the last conjunct is stored as it is.  A definition that copies the result of
+            # one of `evidence_calls` is true only when that evidence holds: it does not count as an unprotected `true`
+            unprotected = []
+            for d in computed:
+                if d.kind == "call":
+                    if d.bb not in evidence_calls:
+                        unprotected.append(d)
+                    continue
+                os_ = flow.origins(fn, d.rv["op"])
+                if not (os_ and all(o.kind == "call" and o.call.bb in evidence_calls for o in os_)):
+                    unprotected.append(d)
             for val in (1, 0):
-                sites = [d.bb for d in defs if const_int(d.rv["op"]) == val]
-                if sites and all(b not in reach for b in sites):
+                if val == 0 and computed:
+                    continue
+                sites = [d.bb for d in consts if const_int(d.rv["op"]) == val] + ([d.bb for d in unprotected] if val == 1 else [])
+                if (sites or (val == 1 and computed)) and all(b not in reach for b in sites):
                     for e in bool_edges(fn, sb, bool(val) != neg):
                         if e not in removed:
                             removed.add(e)
